@@ -16,7 +16,8 @@ Record obs := {
   ob_fwds : list N;          (* uids of the client's messages forwarded in this step *)
   ob_closed : bool;
   ob_drops : list N;         (* uids reported dropped for this client *)
-  ob_snap : option sview }.  (* None: no client object with this id exists *)
+  ob_snap : option sview;    (* None: no client object with this id exists *)
+  ob_fault : bool }.         (* every write to the client's connection failed during this step (fault injection) *)
 
 Definition eqb_list (l1 l2 : list N) : bool := beq_bytes l1 l2.
 Definition inb (x : N) (l : list N) : bool := existsb (N.eqb x) l.
@@ -91,7 +92,7 @@ Definition orc_of (o : op) (pkts : list out) : list N :=
 (* a DISCONNECT packet runs the post-packet block on a closed connection: nothing is written, the choice
    among equally old held-back messages shows only as the record that disappeared *)
 Definition orc_for (s : st) (o : op) (ob : obs) : list N :=
-  match o with
+  match (if ob_fault ob then Disconnect true else o) with
   | Disconnect true =>
       match ob_snap ob with
       | Some sv => filter (fun p => negb (existsb (fun e => fst e =? p) (sv_infl sv))) (map fst (immediates (s_infl s)))
@@ -100,10 +101,14 @@ Definition orc_for (s : st) (o : op) (ob : obs) : list N :=
   | _ => orc_of o (ob_pkts ob)
   end.
 
+(* one step of the model: the fault variant when the observation says the writes failed *)
+Definition stepx (c : cfg) (s : st) (o : op) (ob : obs) (orc : list N) : st * list out :=
+  if ob_fault ob then step_fault c s o orc else step c s o orc.
+
 (* model observation of one step in the same shape *)
 Definition obs_of_model (s' : st) (outs : list out) : obs :=
   {| ob_pkts := filter is_pkt outs; ob_fwds := fwds_of outs; ob_closed := negb (s_conn s');
-     ob_drops := drops_of outs; ob_snap := sview_of s' |}.
+     ob_drops := drops_of outs; ob_snap := sview_of s'; ob_fault := false |}.
 
 (* comparison of projected observables; a DISCONNECT written to an MQTT 3 client is C23's business *)
 Definition no_disc (l : list out) : list out := filter (fun p => negb (pkt_ty p =? T_DISCONNECT)) l.
@@ -290,7 +295,9 @@ Definition direct_uid_of (o : op) : N := match o with OutPublish _ _ uid _ _ _ _
 
 Definition view_step (c : cfg) (v : view) (o : op) (ob : obs) : view :=
   let v1 := view_op c v o ob in
-  let v2 := fold_left (view_pkt (direct_uid_of o)) (ob_pkts ob) v1 in
+  let v2a := fold_left (view_pkt (direct_uid_of o)) (ob_pkts ob) v1 in
+  (* a connection that broke while the broker was answering is gone, like after a network close *)
+  let v2 := if ob_fault ob && ob_closed ob then view_drop v2a else v2a in
   {| v_conn := v_conn v2; v_v5 := v_v5 v2; v_rm := v_rm v2; v_exp := v_exp v2; v_pubs := v_pubs v2; v_owed := v_owed v2;
      v_pend := v_pend v2; v_done := v_done v2; v_seen := v_seen v2; v_direct := v_direct v2; v_open2 := v_open2 v2;
      v_inq := v_inq v2; v_fwd := v_fwd v2 ++ ob_fwds ob;
@@ -645,6 +652,14 @@ Definition kf_of (prop : N) (c : cfg) (s : st) (v v' : view) (t : taint) (o : op
       if (s_recvq s =? 0)%Z then Some (tag "KF_C08_limit_on_retransmit") else Some (tag "KF_C08_retransmit_0x91")
     else if cl =? 1 then
       if inb (vi_pid vi) (t_crossed t) then Some (tag "KF_C08_cross_ack") else None
+    else if cl =? 3 then
+      (* the broker holds the record of this very message (PUBREC, or what an acknowledgement made of it) although it
+         never forwarded it: the write of the first PUBREC failed *)
+      match get (vi_pid vi) (s_infl s) with
+      | Some r => if negb (r_ty r =? T_PUBLISH) && (r_uid r =? vi_uid vi) then Some (tag "KF_C08_recorded_not_forwarded")
+                  else if inb (vi_pid vi) (t_crossed t) then Some (tag "KF_C08_cross_ack") else None
+      | None => if inb (vi_pid vi) (t_crossed t) then Some (tag "KF_C08_cross_ack") else None
+      end
     else None
   else if prop =? 9 then
     if inb (vi_uid vi) (t_collided t) || ((vi_uid vi =? 0) && inb (vi_pid vi) (t_crossed t)) then Some (tag "KF_C09_id_collision")
@@ -743,10 +758,11 @@ Definition as_sview (v : val) : option (option sview) :=
   end.
 Definition as_obs (v : val) : option obs :=
   match v with
-  | VL [VL pkts; fwds; closed; drops; snap] =>
+  | VL (VL pkts :: fwds :: closed :: drops :: snap :: rest) =>
       do pk <- map_opt as_opkt pkts; do fw <- as_NL fwds; do cl <- as_bool closed; do dr <- as_NL drops;
       do sn <- as_sview snap;
-      Some {| ob_pkts := pk; ob_fwds := fw; ob_closed := cl; ob_drops := dr; ob_snap := sn |}
+      Some {| ob_pkts := pk; ob_fwds := fw; ob_closed := cl; ob_drops := dr; ob_snap := sn;
+              ob_fault := match rest with [VN 1] => true | _ => false end |}
   | _ => None
   end.
 Definition as_step (v : val) : option (op * obs) :=
@@ -781,7 +797,7 @@ Fixpoint replay (prop : N) (c : cfg) (s : st) (v : view) (t : taint) (h : list (
   | [] => {| rs_viol := None; rs_agree := agree; rs_steps := n |}
   | (o, ob) :: r =>
       let orc := orc_for s o ob in
-      let '(s', outs) := step c s o orc in
+      let '(s', outs) := stepx c s o ob orc in
       let t' := taint_step c s o orc s' t in
       let v5 := match o with Reconnect b _ _ _ => b | _ => s_v5 s end in
       let ag := agree && obs_agree v5 (obs_of_model s' outs) ob in
@@ -807,7 +823,7 @@ Fixpoint first_disagree (c : cfg) (s : st) (h : list (op * obs)) (n : N) : optio
   | [] => None
   | (o, ob) :: r =>
       let orc := orc_for s o ob in
-      let '(s', outs) := step c s o orc in
+      let '(s', outs) := stepx c s o ob orc in
       let v5 := match o with Reconnect b _ _ _ => b | _ => s_v5 s end in
       if obs_agree v5 (obs_of_model s' outs) ob then first_disagree c s' r (n + 1) else Some n
   end.
@@ -817,7 +833,10 @@ Fixpoint model_along (c : cfg) (s : st) (h : list (op * obs)) : list (op * obs) 
   match h with
   | [] => []
   | (o, ob) :: r =>
-      let '(s', outs) := step c s o (orc_for s o ob) in (o, obs_of_model s' outs) :: model_along c s' r
+      let '(s', outs) := stepx c s o ob (orc_for s o ob) in
+      (o, {| ob_pkts := ob_pkts (obs_of_model s' outs); ob_fwds := ob_fwds (obs_of_model s' outs);
+             ob_closed := ob_closed (obs_of_model s' outs); ob_drops := ob_drops (obs_of_model s' outs);
+             ob_snap := ob_snap (obs_of_model s' outs); ob_fault := ob_fault ob |}) :: model_along c s' r
   end.
 
 (* Implementation and model differ although the observation satisfies the specification: if the first difference is
@@ -886,6 +905,22 @@ Fixpoint model_trace (c : cfg) (s : st) (h : list (op * list N)) : list (op * ob
 (* first violation of property [prop] on the model's trace of history h: (clause, known finding that explains it) *)
 Definition model_verdict (prop : N) (c : cfg) (h : list (op * list N)) : option (N * option bytes) :=
   match rs_viol (replay prop c init_st view0 taint0 (model_trace c init_st h) 0 true) with
+  | Some (vi, kf, _) => Some (vi_clause vi, kf)
+  | None => None
+  end.
+
+(* the same with fault injection: the third component says that every write to the client failed in that step *)
+Fixpoint model_trace_f (c : cfg) (s : st) (h : list (op * list N * bool)) : list (op * obs) :=
+  match h with
+  | [] => []
+  | (o, orc, f) :: r =>
+      let '(s', outs) := (if f then step_fault c s o orc else step c s o orc) in
+      (o, {| ob_pkts := ob_pkts (obs_of_model s' outs); ob_fwds := ob_fwds (obs_of_model s' outs);
+             ob_closed := ob_closed (obs_of_model s' outs); ob_drops := ob_drops (obs_of_model s' outs);
+             ob_snap := ob_snap (obs_of_model s' outs); ob_fault := f |}) :: model_trace_f c s' r
+  end.
+Definition model_verdict_f (prop : N) (c : cfg) (h : list (op * list N * bool)) : option (N * option bytes) :=
+  match rs_viol (replay prop c init_st view0 taint0 (model_trace_f c init_st h) 0 true) with
   | Some (vi, kf, _) => Some (vi_clause vi, kf)
   | None => None
   end.
